@@ -6,7 +6,7 @@
 From Coq Require Import List Bool Arith Reals QArith Qcanon.
 From SV Require Import Base.Num C09.Defs C09.Spec C09.Impl C09.Thm C09.Exec C09.ExecThm C09.GenSig C09.Gen.
 From SVGen Require Import C09_Metric.
-From SVGen Require C09_L0 C09_L1 C09_SqL2 C09_L2 C09_L1mL2 C09_SqL2Loss C09_SqL2AbsLoss C09_SqL2SqAbsLoss.
+From SVGen Require C09_L0 C09_L1 C09_SqL2 C09_L2 C09_L1mL2 C09_SqL2Loss C09_SqL2AbsLoss C09_SqL2SqAbsLoss C09_Scaled C09_FSum C09_Zero.
 Import ListNotations.
 Open Scope R_scope.
 
@@ -289,6 +289,26 @@ Theorem C09_gen_losses_exec : forall rt : Qc -> Qc,
      sql2sqabs_impl rt alpha w y (A x) = C09_SqL2SqAbsLoss.call_gen (NS:=NS_impl rt) (LS:=LS_impl) w (C09_SqL2SqAbsLoss.mk_st alpha y A) x).
 Proof. exact gen_loss_exec. Qed.
 Print Assumptions C09_gen_losses_exec.
+
+(** [__call__] of ScaledFunctional, FunctionalSum and ZeroFunctional as REGENERATED FROM scico/functional/_functional.py on every
+    run (coq/gen/C09_{Scaled,FSum,Zero}.v), for arbitrary component functionals with values in [ext] (so [+inf] included) *)
+Theorem C09_gen_algebra :
+  (forall (X : Type) (c : R) (f : X -> ext R) x,
+     C09_Scaled.call_gen (ES:=ES_impl) (C09_Scaled.mk_st c f) x = scaled_spec c (f x)) /\
+  (forall (X : Type) (f g : X -> ext R) x,
+     C09_FSum.call_gen (ES:=ES_impl) (C09_FSum.mk_st f g) x = fsum_spec (f x) (g x)) /\
+  (forall d : list cxR, C09_Zero.call_gen d = zero_spec d).
+Proof. exact gen_algebra_spec. Qed.
+Print Assumptions C09_gen_algebra.
+
+Theorem C09_gen_algebra_exec :
+  (forall (X : Type) (c : Qc) (f : X -> ext Qc) x,
+     scaled_impl c (f x) = C09_Scaled.call_gen (ES:=ES_impl) (C09_Scaled.mk_st c f) x) /\
+  (forall (X : Type) (f g : X -> ext Qc) x,
+     fsum_impl (f x) (g x) = C09_FSum.call_gen (ES:=ES_impl) (C09_FSum.mk_st f g) x) /\
+  (forall d : list (cx (K:=Qc)), zero_impl d = C09_Zero.call_gen d).
+Proof. exact gen_algebra_exec. Qed.
+Print Assumptions C09_gen_algebra_exec.
 
 (** *** non-vacuity: the executable instance evaluates the same definitions on concrete data *)
 Example C09_ex_l2ball_boundary :
